@@ -385,6 +385,11 @@ func (r *c18Run) runOps(cases []*c18Case) {
 				// only the relations between the implementation's own answers are checked
 				steps = "desc-last"
 			}
+			for i := 0; i+1 < len(ob.path) && !trailing; i++ {
+				if ob.path[i].kind == '*' && ob.path[i+1].kind == 'd' {
+					steps = "wild-desc" // one cause (ojg loses matches below a wildcard that is followed by a descent)
+				}
+			}
 			var exp, aspect string
 			okk := true
 			if !trailing {
